@@ -11,6 +11,7 @@ import AgeModel.Extracted.RandUse
 import Proofs.GoTieNonce
 import Proofs.GoTieEncrypt
 import Proofs.GoTieGenerate
+import Proofs.GoTieCliPass
 namespace AgeModel
 namespace Tie.C06
 
@@ -102,6 +103,34 @@ theorem generate_tie (eRand : Go.Err) (X : Bytes → Bytes → Go.M (Bytes × Op
         | .ok r => .ok (⟨sk, r.1⟩, none, t)
         | .error e => .error e :=
   GoTie.generate_tie eRand X bp tape
+
+/-! The passphrase the command line tool suggests (`age -p`, nothing typed): `randomWord` and
+`passphrasePromptForEncryption` of cmd/age, translated with crypto/rand as a tape and the terminal
+as abstract state. Each word is selected by the next TWO bytes of the tape (big end first, modulo
+2048); the suggestion is ten such words joined by `-`, i.e. a function of exactly the next 20
+bytes of the random source; an exhausted source is a panic, never a shorter or weaker passphrase;
+the suggestion is shown before it is returned; a typed passphrase is returned only when its
+confirmation equals it. And nothing is lost on the way to text: for a table without `-` in its
+words the suggestion determines the ten selected words (`autogen_injective`). -/
+
+theorem randomWord_tie (eRand : Go.Err) (W : List Bytes) (hW : W.length = 2048) (tape : Bytes) :
+    Extracted.main_randomWord (GoTie.tapeRead eRand) W tape =
+      match draw 2 tape with
+      | none => .error (Go.Fault.panic 0)
+      | some (b, t) => .ok ((GoTie.wordsOf W b).headD [], t) :=
+  GoTie.randomWord_tie eRand W hW tape
+
+theorem prompt_tie {σ : Type} (eRand : Go.Err) (S : Bytes → σ → Go.M (Bytes × Option Go.Err × σ))
+    (Pr : Bytes → Bytes → σ → Go.M (Option Go.Err × σ)) (W : List Bytes) (hW : W.length = 2048)
+    (tape : Bytes) (s0 : σ) :
+    Extracted.main_passphrasePromptForEncryption (GoTie.liftSecret S) (GoTie.liftRead eRand) W (GoTie.liftPrint Pr) (tape, s0) =
+      GoTie.promptModel S Pr W tape s0 :=
+  GoTie.prompt_tie eRand S Pr W hW tape s0
+
+theorem autogen_injective (W : List Bytes) (hW : W.length = 2048) (hnd : W.Nodup) (hdash : ∀ w ∈ W, (45 : UInt8) ∉ w)
+    (r1 r2 : Bytes) (h1 : r1.length = 20) (h2 : r2.length = 20) (h : GoTie.autogen W r1 = GoTie.autogen W r2) :
+    GoTie.wordsOf W r1 = GoTie.wordsOf W r2 :=
+  GoTie.autogen_injective W hW hnd hdash r1 r2 h1 h2 h
 
 end Tie.C06
 end AgeModel
